@@ -2,7 +2,7 @@ from functools import wraps
 from typing import Any, Dict, Type, Callable, Union, TypeVar, cast
 
 from .constants import SINGLE_ARG_ALIAS, IDENTITY
-from .errors import ParseError
+from .errors import JSONWizardError, ParseError
 
 
 T = TypeVar('T')
@@ -88,6 +88,11 @@ def try_with_load(load_fn: Callable):
                 # Re-raise the original error
                 raise
 
+            except JSONWizardError:
+                # Other library errors raised for a nested dataclass (such as
+                # `MissingFields` or `UnknownKeysError`) pass unchanged.
+                raise
+
             except Exception as e:
                 raise ParseError(e, o, base_type, load_hook=load_fn.__name__)
 
@@ -140,6 +145,9 @@ def try_with_load_with_single_arg(original_fn: Callable,
             e.kwargs['load_hook'] = original_fn.__name__
             e.obj = o
             # Re-raise the original error
+            raise
+
+        except JSONWizardError:
             raise
 
         except Exception as e:
